@@ -77,7 +77,19 @@ func (rn *runner) runOpsCase(d *docCtx, c *opsCase, verbose bool) *opsOutcome {
 	return out
 }
 
+func (rn *runner) finish() {
+	rn.cw.Flush()
+	rn.sum.CaseFiles = rn.cw.Files
+	rn.sum.Write(rn.o)
+}
+
 func (rn *runner) runExprCase(d *docCtx, c *exprCase, verbose bool) *exprOutcome {
+	if c.API {
+		if k := d.nodeAt(c.Start); k >= 0 {
+			(&wrapLog{}).apiCase(rn, d, k, c.Expr, c.Pool, verbose)
+		}
+		return &exprOutcome{}
+	}
 	out := evalExpr(d, c)
 	if verbose {
 		b, _ := json.MarshalIndent(out, "", " ")
@@ -233,11 +245,7 @@ func main() {
 	cw := vh.NewCaseWriter(o, "c11", "Base.Tree Model.Nav", "c11case", "check_case")
 	cw.PerFile = 25
 	rn := &runner{o: o, sum: sum, cw: cw}
-	defer func() {
-		cw.Flush()
-		sum.CaseFiles = cw.Files
-		sum.Write(o)
-	}()
+	defer rn.finish()
 
 	if o.Replay != "" {
 		rn.replayFile(o.Replay, true)
@@ -394,7 +402,7 @@ func main() {
 				sum.Count("expr|"+text+"|"+ex+"|"+pathLabel(c.Start), hasAttr && exprTouches(ex))
 				sum.Hist("expr:root-probes")
 				if di%3 != 2 && wl.n < 6 {
-					wl.record(d.inodes[k], ex, sum)
+					wl.apiCase(rn, d, k, ex, pre, false)
 				}
 			}
 		}
@@ -408,7 +416,7 @@ func main() {
 			sum.Count("expr|"+text+"|"+pn[i]+"|"+pathLabel(c.Start), hasAttr)
 			sum.Hist("expr:bare-child-name")
 			if di%3 != 2 && wl.n < 12 {
-				wl.record(d.inodes[ps[i]], pn[i], sum)
+				wl.apiCase(rn, d, ps[i], pn[i], pre, false)
 			}
 			if out.n == 0 {
 				sum.Hist("expr:bare-child-name-selects-nothing(children-all-prefixed)")
@@ -461,17 +469,9 @@ func main() {
 				out := rn.runExprCase(d, c, false)
 				sum.Count("expr|"+text+"|"+ex+"|"+pathLabel(c.Start), hasAttr && exprTouches(ex))
 				sum.Hist("expr:evaluations")
-				// node-set expressions only: a boolean-valued expression that is true makes the
-				// engine's iterator yield the context node for ever, and idr.MatchAll with it
-				// (reported separately: C03 class, not a C11 disagreement)
-				if !scalar && (di%3 != 2 || o.Tier == "thorough") && wl.n < 30 {
-					wl.record(d.inodes[k], ex, sum)
-				}
-				if out.Q1 > 0 {
-					sum.Hist("expr:reference-repair-active(Q1 Value of document node)")
-				}
-				if out.Q2 > 0 {
-					sum.Hist("expr:reference-repair-active(Q2 MoveToRoot on attribute)")
+				// boolean / number / string valued expressions included (N11)
+				if (di%3 != 2 || o.Tier == "thorough") && wl.n < 30 {
+					wl.apiCase(rn, d, k, ex, pre, false)
 				}
 				switch {
 				case out.RefErr != "":
@@ -496,8 +496,16 @@ func main() {
 				}
 			}
 		}
+		if di%3 != 2 || o.Tier == "thorough" {
+			ss, se := scalarProbes(d, r)
+			for i := range ss {
+				wl.apiCase(rn, d, ss[i], se[i], pre, false)
+				sum.Count("api|"+text+"|"+se[i]+"|"+pathLabel(d.paths[ss[i]]), hasAttr && exprTouches(se[i]))
+				sum.Hist("expr:non-node-set-through-string-API")
+			}
+		}
 		if wl.n > 0 {
-			wl.record(d.inodes[0], ".", sum)
+			wl.apiCase(rn, d, 0, ".", pre, false)
 			cw.Add(wl.term(), map[string]interface{}{"kind": "string-api-wrappers", "doc": text, "earlier_document": pre, "queries": wl.n})
 		}
 		for f := range g.feat {
